@@ -74,9 +74,8 @@ def explore(case):
           continue
         nc = dict(case, history=h2)
         cohort = [pop[i] for i in idxs]
-        snap = algos.tree_np(state)
-        path = os.path.join(tmp, 'st')
-        serialization.save_state(state, path)
+        snap = algos.tree_np(state)   # np.array(copy=True): does not pin the device buffers (np.asarray would - a pinned
+        path = os.path.join(tmp, 'st')  # buffer cannot be donated, which would hide an invalidated caller state)
         # a round that aborts half way (transient failure in a later client) must leave nothing behind: the retry
         # below is compared with a second call, with the restored copy and with a fresh algorithm object
         if algos.aborted_round(alg, state, cohort):
@@ -84,6 +83,7 @@ def explore(case):
           readable_equal(state, snap, 'after an aborted round', nc)
         new, diag = alg.apply(state, cohort)
         readable_equal(state, snap, 'after apply', nc)
+        serialization.save_state(state, path)
         new_snap, diag_snap = algos.tree_np(new), algos.tree_np(diag)
         # (2) same arguments again
         new2, diag2 = alg.apply(state, cohort)
@@ -201,8 +201,60 @@ def aggregators(case):
           'outcome': [name, evals]}
 
 
-SUBS = {'explore': explore, 'aggregators': aggregators}
-TIMEOUTS = {'explore': 3000, 'aggregators': 1200}
+def _run_specs(specs, seed):
+  """Two rounds per spec from the initial state; returns {spec: flat list of float values of everything returned}."""
+  import jax
+  out = {}
+  for spec in specs:
+    vals = []
+    if spec.startswith('agg:'):
+      agg = systems.aggregator(spec[4:], fresh=True)
+      state = agg.init()
+      for r in range(2):
+        trees = _trees('mat_scalar', 3, seed + r)
+        res, state = agg.apply(iter([(b'client-%d' % i, t, float(i + 1)) for i, t in enumerate(trees)]), state)
+        vals += [np.asarray(l, np.float64).ravel().tolist() for l in jax.tree_util.tree_leaves((res, state))
+                 if np.asarray(l).dtype.kind in 'fiu']
+    else:
+      bname, kw = SYSTEMS[spec]
+      alg, state = systems.build(bname, fresh=True, **kw)
+      pop = algos.population([2, 3, 0, 4], seed, ids=[b'client-a', b'client-b', b'client-c', b''])
+      for cohort in ([0, 1, 3], [3, 1], [2, 0]):
+        state, diag = alg.apply(state, [pop[i] for i in cohort])
+        vals += [np.asarray(l, np.float64).ravel().tolist() for l in jax.tree_util.tree_leaves((state, sorted(
+            (repr(k), jax.tree_util.tree_leaves(v)) for k, v in diag.items()))) if np.asarray(l).dtype.kind in 'fiu']
+    out[spec] = vals
+  return out
+
+
+def child_specs(arg):
+  return _run_specs(arg['specs'], arg['seed'])
+
+
+def other_process(case):
+  """The outputs are a function of the VALUES passed in - not of the interpreter process: the same rounds computed in a
+  fresh interpreter whose str/bytes hash salt (PYTHONHASHSEED) differs must give the same states and diagnostics. Every
+  listed salt is executed (the salt is an environment answer the library does not own)."""
+  from mc import child
+  seed = case.get('seed', 0)
+  here = _run_specs(case['specs'], seed)
+  evals = 0
+  for hs in case['hashseeds']:
+    there = child.call('mc.checks.c10_round_purity', 'child_specs', {'specs': case['specs'], 'seed': seed}, hs)
+    for spec in case['specs']:
+      nc = dict(case, specs=[spec], hashseeds=[hs])
+      a, b = here[spec], there[spec]
+      ok = len(a) == len(b) and all(len(x) == len(y) and np.allclose(x, y, rtol=1e-6, atol=1e-7, equal_nan=True)
+                                    for x, y in zip(a, b))
+      require(ok, '%s: the same rounds computed in another interpreter process (PYTHONHASHSEED=%s) give different states / '
+              'diagnostics' % (spec, hs), a[:6], b[:6], case=nc)
+      evals += 1
+  return {'evals': evals, 'states': evals, 'transitions': evals * 2, 'traces': evals, 'nontrivial': True,
+          'outcome': [case['specs'], case['hashseeds']]}
+
+
+SUBS = {'explore': explore, 'aggregators': aggregators, 'other_process': other_process}
+TIMEOUTS = {'explore': 3000, 'aggregators': 1200, 'other_process': 2400}
 
 
 def plan(ctx):
@@ -219,3 +271,8 @@ def plan(ctx):
   ctx.pmap('aggregators', [{'agg': a, 'rounds': 3, 'trees': ['vec', 'mat_scalar', 'nested'] if th else ['vec', 'mat_scalar'],
                             'seed': ctx.seed}
                            for a in ('mean', 'uniform', 'uniform_arith', 'rotated', 'drive', 'terngrad')], chunk=1)
+  groups = [['fed_avg', 'fed_prox'], ['mime', 'mime_lite'], ['agnostic', 'apfl'], ['hyp_cluster'],
+            ['agg:uniform', 'agg:uniform_arith', 'agg:rotated', 'agg:drive', 'agg:terngrad', 'agg:mean']]
+  ctx.pmap('other_process', [{'specs': g, 'hashseeds': [hs], 'seed': ctx.seed} for g in groups
+                             for hs in ((1, 2, 3, 12345) if th else (1, 2))], chunk=1)
+
